@@ -126,3 +126,99 @@ func verifC13(native bool) {
 
 func VerifC13Native() { verifC13(true) }
 func VerifC13Shadow() { verifC13(false) }
+
+// VerifC13Sliced: a pass over two DBIs where the first one holds more than 1000 entries, so
+// that the hard-wired check interval is reached and the pass may be chopped into two write-lock
+// slices (the clock reading at the check is arbitrary); the second DBI holds entries whose keys
+// sort below the slice boundary of the first. Exactly the expired markers of both DBIs go.
+func VerifC13Sliced() {
+	env := zz.NewEnv()
+	lg := logrus.New()
+	lg.SetLevel(logrus.PanicLevel)
+	// the clock advances by at most 1 ms between two readings: the pass is short compared
+	// with the retention (at least an hour)
+	zz.ClockAuto(true)
+	zz.ClockStepMax(1000000)
+	now := zz.ClockRead()
+	conf := config.Sweeper{Enabled: true, RetentionDays: zz.RetentionDays(), LockDuration: time.Nanosecond, ReleaseDuration: time.Nanosecond}
+	sw := New("db", conf, env, lg, true)
+	r := int64(conf.RetentionDuration())
+	zz.Assume(zz.And(r > 3600000000000, r < 1<<50))
+	old := uint64(now - r - r) // well expired
+	young := uint64(now)       // written now
+	type ent struct {
+		dbi        string
+		key, st    []byte
+		expired    bool
+	}
+	var ents []ent
+	err := env.Update(func(txn *lmdb.Txn) error {
+		big, err := txn.OpenDBI("a-big", lmdb.Create)
+		if err != nil {
+			return err
+		}
+		small, err := txn.OpenDBI("b-small", lmdb.Create)
+		if err != nil {
+			return err
+		}
+		key := []byte("k0000")
+		for i := 0; i < 1003; i++ {
+			key[1], key[2], key[3], key[4] = byte('0'+i/1000), byte('0'+i/100%10), byte('0'+i/10%10), byte('0'+i%10)
+			k := append([]byte{}, key...)
+			// mostly live entries; an expired marker just before and just after the boundary
+			var st []byte
+			exp := i == 998 || i == 1001
+			if exp {
+				st = vStored(old, 1, 0, nil)
+			} else {
+				st = vStored(young, 0, 0, []byte("v"))
+			}
+			if err := txn.Put(big, k, st, 0); err != nil {
+				return err
+			}
+			if i >= 997 {
+				ents = append(ents, ent{"a-big", k, st, exp})
+			}
+		}
+		for i, k := range [][]byte{[]byte("a"), []byte("k0500"), []byte("k0999"), []byte("z")} {
+			exp := zz.NondetBool("small.expired" + string(rune('0'+i)))
+			ts := zz.IteU64(exp, old, young)
+			st := vStored(ts, 1, 0, nil) // a deletion marker, expired or young
+			if err := txn.Put(small, k, st, 0); err != nil {
+				return err
+			}
+			ents = append(ents, ent{"b-small", k, st, exp})
+		}
+		return nil
+	})
+	if err != nil {
+		zz.Assert(false, "harness/setup")
+		return
+	}
+	serr := sw.sweep(context.Background())
+	zz.Assert(serr == nil, "C13/sliced/no-error")
+	if sw.lastStats.nTxn > 2 {
+		zz.Reach("C13/sliced/pass-was-chopped")
+	}
+	da, _ := zz.Dump(env, "a-big")
+	db, _ := zz.Dump(env, "b-small")
+	for _, e := range ents {
+		d := da
+		if e.dbi == "b-small" {
+			d = db
+		}
+		present := false
+		var got []byte
+		for _, kv := range d {
+			if bytes.Equal(kv.K, e.key) {
+				present, got = true, kv.V
+			}
+		}
+		zz.Assert(zz.Implies(e.expired, !present), "C13/sliced/expired-marker-removed")
+		zz.Assert(zz.Implies(!e.expired, present), "C13/sliced/other-entries-kept")
+		if present {
+			zz.Assert(bytes.Equal(got, e.st), "C13/sliced/kept-entry-unaltered")
+		}
+	}
+	zz.Reach("C13/sliced/done")
+}
